@@ -196,6 +196,12 @@ def random_plan(seed, tier, g, fr, armed=True, extra=None, density=0.6):
     if act_kind == 'transformed' and not procs['atc'].get('stderr'):
         procs['atc'] = dict(procs['atc'], stderr='written on stderr by the action\n')
     disturb(case, procs, g, density)
+    if kernel.stream(seed, 'own-files').random() < 0.4:
+        # an assertion on the transformed output of a program: Exactly keeps such intermediate files among its own
+        # (internal/), wherever the test stands at that moment
+        procs['tpo'] = {'exit': 0, 'stdout': 'from the program\n', 'stderr': 'on stderr\n'}
+        case['assert'].insert(0, {'k': 'real', 'text': 'stdout -from % tpo\n  -transformed-by char-case -to-upper\n  ! is-empty'})
+        case['assert'].insert(1, {'k': 'real', 'text': 'stderr -from % tpo\n  -transformed-by ( char-case -to-upper | filter contents matches ON )\n  num-lines == 1'})
     if extra is not None:
         extra(case, procs, g)
     faults = arm_faults(case, procs, fr, act_kind != 'empty') if armed else []
